@@ -1,6 +1,7 @@
 import AsyncVerif.Core.Prims
 import AsyncVerif.Proofs.KindFree
 import AsyncVerif.Std.AggSpec
+import AsyncVerif.Std.Aggregations
 /-!
 # List-level specifications of the iterator tools (C01) and the hypotheses of the value theorems
 
@@ -207,6 +208,28 @@ def mergeN (kf : Val → Val) (reverse : Bool) : Nat → List (List Val) → Lis
     smallest head (largest for `reverse`), ties to the lower input number -/
 def merge (kf : Val → Val) (reverse : Bool) (ls : List (List Val)) : List Val :=
   mergeN kf reverse ((ls.map List.length).sum) ls
+
+/-! ## insertion-ordered dictionaries (association lists; key equality = same hash and `==`, `Std.hashEq`) -/
+
+/-- `d[k] = v` on an insertion-ordered association list: an existing (equal) key keeps its position and its key
+    object and takes the new value; a new key is appended at the end -/
+def dictUpdate : List (Val × Val) → Val → Val → List (Val × Val)
+  | [], k, v => [(k, v)]
+  | (k', v') :: rest, k, v =>
+    if Std.hashEq k' k then (k', v) :: rest else (k', v') :: dictUpdate rest k v
+
+/-- `d.update(kw)`: `dictUpdate` for every `(key, value)` of `kw`, in order -/
+def dictUpdateAll (d : List (Val × Val)) (kw : List (Val × Val)) : List (Val × Val) :=
+  kw.foldl (fun a p => dictUpdate a p.1 p.2) d
+
+/-- `d.get(k)`: the value stored under the (first) key equal to `k` -/
+def dictLookup : List (Val × Val) → Val → Option Val
+  | [], _ => none
+  | (k', v') :: rest, k => if Std.hashEq k' k then some v' else dictLookup rest k
+
+/-- the keys of a dictionary are pairwise different (no key equals an earlier one) -/
+def DictKeysDistinct (d : List (Val × Val)) : Prop :=
+  d.Pairwise (fun p q => Std.hashEq p.1 q.1 = false)
 
 end ListSpec
 
